@@ -24,6 +24,7 @@ def run(prog: Program, rep: Report):
     r3_dirty(prog, rep, fam, mut, rec)
     r4_save(prog, rep, fam, mut, rec, lines)
     r5_readonly(prog, rep, fam)
+    r6_table_kind(prog, rep, fam, mut, lines)
 
 
 def r1_delegation(prog, rep: Report, fam: Family, mut: Cls, lines: str):
@@ -509,3 +510,90 @@ def r5_readonly(prog, rep: Report, fam: Family):
                                   "memory map is ACCESS_READ", f"`{src(call)}` maps the data file writable",
                                   scenario="a write through the map changes the original file's bytes", line=call.lineno)
     rep.count("open_sites", n)
+
+
+# ---------------------------------------------------------------------------------------------- R6
+LIST_MAKERS = {"list", "sorted"}
+TYPED_CONTAINERS = {"array.array", "array", "tuple", "range", "bytes", "bytearray", "frozenset", "set", "memoryview",
+                    "numpy.array", "numpy.asarray", "numpy.fromiter", "numpy.loadtxt", "collections.deque", "map", "filter", "iter"}
+
+
+def _container_kind(prog: Program, f: Func, e: ast.expr, depth=0) -> Tuple[str, str]:
+    """('list' | 'param' | 'bad' | 'unknown', description) for an expression stored into the table"""
+    from ..resolve import Scope
+    if isinstance(e, (ast.List, ast.ListComp)):
+        return "list", "list display"
+    if isinstance(e, ast.BinOp) and isinstance(e.op, (ast.Add, ast.Mult)):
+        for side in (e.left, e.right):
+            k = _container_kind(prog, f, side, depth + 1)
+            if k[0] in ("list", "bad"):
+                return k
+        return "unknown", src(e)
+    if isinstance(e, ast.IfExp):
+        ks = [_container_kind(prog, f, e.body, depth + 1), _container_kind(prog, f, e.orelse, depth + 1)]
+        for want in ("bad", "unknown", "param", "list"):
+            for k in ks:
+                if k[0] == want:
+                    return k
+    if isinstance(e, ast.Name):
+        if e.id in f.params:
+            return "param", f"caller's `{e.id}`"
+        d = Flow(f.node).expand(e)
+        if d is not e and depth < 4:
+            return _container_kind(prog, f, d, depth + 1)
+        return "unknown", src(e)
+    if isinstance(e, (ast.Tuple, ast.Set, ast.SetComp, ast.GeneratorExp, ast.Dict, ast.DictComp)):
+        return "bad", f"`{src(e)[:60]}` is a {type(e).__name__}, not a list"
+    if isinstance(e, ast.Call):
+        name = ext_name(prog, f, e) or src(e.func)
+        if name in LIST_MAKERS or (isinstance(e.func, ast.Attribute) and e.func.attr == "copy"
+                                   and _container_kind(prog, f, e.func.value, depth + 1)[0] == "list"):
+            return "list", f"{name}(...)"
+        if name in TYPED_CONTAINERS or name.split(".")[-1] in ("array", "tuple", "deque"):
+            return "bad", f"`{src(e)[:70]}` builds a {name}, which cannot hold the str entries that editing stores into the table"
+        callee = Scope(prog, f, f.cls).resolve_call(e) if depth < 4 else None
+        if isinstance(callee, Func):
+            rets = [r for r in returns_of(callee.node) if r.value is not None]
+            if rets:
+                ks = [_container_kind(prog, callee, r.value, depth + 1) for r in rets]
+                for want in ("bad", "unknown", "param", "list"):
+                    for k in ks:
+                        if k[0] == want:
+                            return (k[0], f"{callee.name}() returns {k[1]}")
+        return "unknown", src(e)[:80]
+    return "unknown", src(e)[:80]
+
+
+def r6_table_kind(prog, rep: Report, fam: Family, mut: Cls, lines: str):
+    rep.rule("C12.R6", "the offset/content table is a list: every value the classes themselves store into the table field (literals, "
+             "the index builder, the index-file reader) is a `list`, so that editing can replace an offset by a string and "
+             "insert/delete entries; a typed or immutable container (array, tuple, range) accepts the reads and fails on the "
+             "first edit", floor=3)
+    seen = 0
+    owners = {k.qual: k for c in fam.line_classes for k in c.repo_mro()}
+    for k in sorted(owners.values(), key=lambda k: k.node.lineno):
+        for name, f in k.methods.items():
+            if f.self_name is None:
+                continue
+            for n in walk_own(f.node):
+                tgt = None
+                if isinstance(n, ast.Assign):
+                    for t in n.targets:
+                        if dotted(t) == (f.self_name, lines):
+                            tgt = n.value
+                elif isinstance(n, ast.AnnAssign) and n.value is not None and dotted(n.target) == (f.self_name, lines):
+                    tgt = n.value
+                if tgt is None:
+                    continue
+                seen += 1
+                rep.fn(f)
+                kind, why = _container_kind(prog, f, tgt)
+                role = f"table-kind:{name}:{seen}"
+                if kind in ("list", "param"):
+                    rep.ok("C12.R6", f, role, f"self.{lines} = {why}")
+                elif kind == "bad":
+                    rep.viol("C12.R6", f, role, f"self.{lines} is assigned a container that is not a list: {why}",
+                             scenario="a mutable line file built this way reads correctly and raises TypeError on the first "
+                                      "f[i] = ..., insert, append or extend", line=n.lineno)
+                else:
+                    rep.unrec("C12.R6", f, role, f"cannot tell what kind of container `{why}` is", line=n.lineno)
